@@ -1,6 +1,5 @@
 """Adapters for the documentation-text half of C03: the real meta_preprocessor, read_metadata
 pre-step and AdmonitionPreprocessor.run on lists of lines."""
-import copy
 
 
 def run_meta(lines):
@@ -17,10 +16,6 @@ def entity_fields():
     from dataclasses import fields
     from ford.settings import EntitySettings
     return [f.name for f in fields(EntitySettings)]
-
-
-class _Probe:
-    """Just enough of FortranBase for read_metadata up to meta.update."""
 
 
 def run_read_metadata(lines):
@@ -42,7 +37,7 @@ def run_read_metadata(lines):
     obj.settings = ProjectSettings(warn=False)
     obj.obj = "proc"
     obj.name = "probe"
-    obj.filename = "probe.f90"
+    obj.hierarchy = []
     rec = Rec()
     orig = sf.EntitySettings.from_project_settings
     try:
